@@ -17,8 +17,10 @@ import (
 	"fmt"
 	"os"
 	"path/filepath"
+	"net/http"
 	"sort"
 	"strings"
+	"sync"
 	"sync/atomic"
 	"time"
 
@@ -151,10 +153,39 @@ type aaRoute struct {
 }
 
 type aaRow struct {
-	Status  int    `json:"status"` // HTTP status or gRPC code
-	Changed bool   `json:"changed"`
-	Calls   int64  `json:"calls"`
-	Err     string `json:"err,omitempty"`
+	Status   int      `json:"status"` // HTTP status or gRPC code
+	Changed  bool     `json:"changed"`
+	Calls    int64    `json:"calls"`
+	Seen     bool     `json:"seen"`      // pull/admin: the listener's handler was entered
+	SeenPath string   `json:"seen_path"` // hex r.URL.Path at the listener (before mountPrefix)
+	SeenAuth []string `json:"seen_auth"` // hex r.Header["Authorization"]
+	Err      string   `json:"err,omitempty"`
+}
+
+type authSeen struct {
+	mu   sync.Mutex
+	ok   bool
+	path string
+	auth []string
+}
+
+func (a *authSeen) wrap(next http.Handler) http.Handler {
+	return http.HandlerFunc(func(w http.ResponseWriter, r *http.Request) {
+		a.mu.Lock()
+		a.ok = true
+		a.path = r.URL.Path
+		a.auth = append([]string(nil), r.Header["Authorization"]...)
+		a.mu.Unlock()
+		next.ServeHTTP(w, r)
+	})
+}
+
+func (a *authSeen) take() (bool, string, []string) {
+	a.mu.Lock()
+	defer a.mu.Unlock()
+	ok, p, au := a.ok, a.path, a.auth
+	a.ok, a.path, a.auth = false, "", nil
+	return ok, p, au
 }
 
 type aaCfgOut struct {
@@ -304,6 +335,14 @@ func apiAuthRun(in []byte) (any, error) {
 				}
 			}
 		}
+		seen := &authSeen{}
+		wrapped := map[*http.Server]bool{}
+		for _, addr := range []string{compiled.PullAPI.Listen, compiled.AdminAPI.Listen} {
+			if hs := rt.HTTPServer(addr); hs != nil && !wrapped[hs] {
+				hs.Handler = seen.wrap(hs.Handler)
+				wrapped[hs] = true
+			}
+		}
 		pullCl := &rawClient{addr: compiled.PullAPI.Listen}
 		adminCl := &rawClient{addr: compiled.AdminAPI.Listen}
 		var conn *grpc.ClientConn
@@ -330,6 +369,7 @@ func apiAuthRun(in []byte) (any, error) {
 			if rq.LeaseRoute != "" && rq.Op != "dequeue" {
 				lease = freshLease(mem, unhx(rq.LeaseRoute))
 			}
+			seen.take()
 			before := snapshotHash(mem)
 			n0 := store.n.Load()
 			switch rq.Kind {
@@ -447,6 +487,11 @@ func apiAuthRun(in []byte) (any, error) {
 			}
 			row.Calls = store.n.Load() - n0
 			row.Changed = snapshotHash(mem) != before
+			if ok, sp, sa := seen.take(); ok {
+				row.Seen = true
+				row.SeenPath = hx(sp)
+				row.SeenAuth = hexAll(sa)
+			}
 			co.Rows = append(co.Rows, row)
 		}
 		pullCl.close()
